@@ -221,6 +221,23 @@ def gen_cases(tier, sqrt_available, focus=None):
             if abs(a) < (1 << 47):
                 cases.append(Case("atan_index_aprox", f"W_atan_index_aprox({i64lit(a)})", ("un", 15, a), f"raw {a}", optional=True))
         return cases
+    if focus == "C17":      # the operators the laws are about, at the boundaries of the product, both operand orders
+        cases = []
+        for (a, b) in directed_mul_pairs():
+            for op, name in ((2, "mul"), (6, "muleq")):
+                cases.append(Case(name, f"W_{name}({i64lit(a)}, {i64lit(b)})", ("bin", op, a, b), f"{name}(raw {a}, raw {b})"))
+        for t in (3, 11, 7):
+            for (a, b) in directed_mul_pairs():
+                if t == 7 and b < 0:
+                    continue
+                for order in range(3):
+                    cases.append(Case(f"mixed*_{TYPES[t]}", f"W_mix<2,{order},{TYPES[t]}>({i64lit(a)}, {typed_lit(t, b & ((1 << 64) - 1))})", ("mixed", 2, t, order, a, b & ((1 << 64) - 1)), f"raw {a} * {TYPES[t]}({b}) order {order}"))
+        sm = small_set()
+        for op, name in ((0, "add"), (1, "sub"), (4, "addeq"), (5, "subeq")):
+            for a in sm[::2]:
+                for b in sm[::2]:
+                    cases.append(Case(name, f"W_{name}({i64lit(a)}, {i64lit(b)})", ("bin", op, a, b), f"{name}(raw {a}, raw {b})"))
+        return cases
     if focus == "C05":      # conversions only, denser floating values
         cases = []
         sm = small_set()
